@@ -20,6 +20,8 @@ import (
 
 type C18Case struct {
 	Inputs []C05Case `json:"inputs"`
+	// Bundles: groups of files compiled together with Bundle.Compile (which parses each of them)
+	Bundles [][]string `json:"bundles,omitempty"`
 }
 
 func scannerGoroutines() int {
@@ -78,6 +80,23 @@ func genC18(t *rapid.T) C18Case {
 		}
 		c.Inputs = append(c.Inputs, genC05(t))
 	}
+	// bundles of several files, some of them broken (not the last one, not only the last one)
+	for i, nb := 0, rapid.IntRange(0, 4).Draw(t, "nbundles"); i < nb; i++ {
+		var files []string
+		for j, nf := 0, rapid.IntRange(2, 4).Draw(t, "nfiles"); j < nf; j++ {
+			switch rapid.IntRange(0, 4).Draw(t, "file") {
+			case 0:
+				files = append(files, wrapLevel(1, rapid.SampledFrom(tagDictAll).Draw(t, "frag"), rapid.Bool().Draw(t, "closed")))
+			case 1:
+				files = append(files, "{namespace dup}\n/** */\n{template .same}x{/template}\n")
+			case 2:
+				files = append(files, "/** no namespace */\n{template .t}x{/template}\n")
+			default:
+				files = append(files, fmt.Sprintf("{namespace ok%d}\n/** */\n{template .t}fine{/template}\n", j))
+			}
+		}
+		c.Bundles = append(c.Bundles, files)
+	}
 	return c
 }
 
@@ -110,12 +129,28 @@ func checkC18(c C18Case) Verdict {
 			nt = true
 		}
 	}
+	for _, files := range c.Bundles {
+		files := files
+		if !finishes(watchdogLimit(), func() {
+			catch(func() {
+				b := soy.NewBundle()
+				for i, f := range files {
+					b.AddTemplateString(fmt.Sprintf("f%d.soy", i), f)
+				}
+				b.Compile()
+			})
+		}) {
+			fmt.Printf("INFRA: compiling a bundle did not return within the watchdog limit (C05/C06 decide that)\n")
+			os.Exit(2)
+		}
+		nt = true
+	}
 	if left := settleTo(base); left > base {
 		left -= base
 		return bad(true, "%d scanner goroutine(s) still alive after %d parses returned; inputs: %s", left, len(c.Inputs), showInputs(c.Inputs))
 	}
 	if after := runtime.NumGoroutine(); after > before+2 {
-		return bad(true, "goroutine count grew from %d to %d over %d parses", before, after, len(c.Inputs))
+		return bad(true, "goroutine count grew from %d to %d over %d parses and %d bundle compilations", before, after, len(c.Inputs), len(c.Bundles))
 	}
 	return ok(nt, fmt.Sprintf("parses:%s", bucket(len(c.Inputs))))
 }
